@@ -13,6 +13,7 @@ func (c *PointerCodec) Read(r *ReadBuf, p unsafe.Pointer) error {
 	pp := (*unsafe.Pointer)(p)
 	if *pp == nil {
 		*pp = c.Codec.New(r)
+		verifPoint(vpPtrReadAfterNew)
 	}
 	return c.Codec.Read(r, *pp)
 }
